@@ -1,16 +1,27 @@
 (* C02 — valid use never leaves the caller's memory, never allocates, never hits UB.
-   Own legs: default-initialised objects.  The component theorems are collected in Properties_components.v. *)
+   Own legs: default-initialised objects (C02/Model.v).  The component theorems are collected in
+   Properties_containers.v, Properties_strings.v, Properties_algorithms.v, Properties_arith.v, Properties_wrappers.v. *)
 From Tetl Require Import Lib.Base C02.Model.
 Local Open Scope Z_scope.
 
-(* every modelled object kind except inplace_vector reads an initialised size member after
-   default-initialisation and reports size 0 *)
+(* every modelled object kind except inplace_vector reads only initialised members after default-initialisation
+   and is in the empty state the standard prescribes for a default-constructed object (23 kinds: vectors, strings in
+   both layouts, views, sets, stack, optional / variant / expected, bitset, inplace_function, pair, tuple, extents,
+   mdspan, duration); the 0xFF-poisoned observation of the harness is then that state *)
 Theorem C02_default_init_reads_initialised : forall o,
-  o <> InplaceVectorTrivial -> o <> InplaceVectorNonTrivial -> default_size o = Ok 0.
-Proof. intros o H1 H2. destruct o; try reflexivity; contradiction. Qed.
+  o <> InplaceVectorTrivial -> o <> InplaceVectorNonTrivial ->
+  default_obs o = Ok (empty_state o) /\ default_obs_poisoned o = empty_state o /\ default_size o = Ok (hd 0 (empty_state o)).
+Proof. intros o H1 H2. destruct o; try (repeat split; reflexivity); contradiction. Qed.
 Print Assumptions C02_default_init_reads_initialised.
 
-(* recorded finding: the size member of inplace_vector has no initialiser *)
-Theorem C02_inplace_vector_default_init_refuted : exists o, default_size o = UB UninitRead.
-Proof. exists InplaceVectorTrivial. reflexivity. Qed.
+(* recorded finding: the size member of inplace_vector has no initialiser (a repair would make the default
+   constructor non-trivial, which tests/inplace_vector pins through etl::is_trivially_copy_constructible) *)
+Theorem C02_inplace_vector_default_init_refuted :
+  exists o, default_obs o = UB UninitRead /\ default_size o = UB UninitRead /\ default_obs_poisoned o <> empty_state o.
+Proof. exists InplaceVectorTrivial. repeat split; try reflexivity. vm_compute. discriminate. Qed.
 Print Assumptions C02_inplace_vector_default_init_refuted.
+
+Example C02_nonvacuous :
+  length all_objs = 23%nat /\ In Variant all_objs /\ Variant <> InplaceVectorTrivial /\ Variant <> InplaceVectorNonTrivial /\
+  default_obs Variant = Ok [0; 0] /\ default_obs_poisoned InplaceVectorNonTrivial = [255; 0].
+Proof. repeat split; try reflexivity; try discriminate. vm_compute. tauto. Qed.
